@@ -9,7 +9,7 @@
 (* recorded in `bad` and the state is resynchronised to the                *)
 (* implementation, so one defect never hides the rest of the trace.        *)
 (***************************************************************************)
-EXTENDS Ops, Json, IOUtils
+EXTENDS Deviations, Json, IOUtils
 
 Rec == ndJsonDeserialize(IOEnv.TRACE)
 NRec == Len(Rec)
@@ -30,6 +30,14 @@ Init == l = 1 /\ cfg = DefaultCfg /\ regs = <<>> /\ hist = EmptyHist /\ bad = <<
 \* an argument is either inline or a register reference {"r": k}
 Arg(v) == IF "r" \in DOMAIN v THEN regs[v.r] ELSE DecOf(v)
 WArg(v) == WOf(v)
+
+\* explicit context of an event, or the configured defaults
+PrecOf(e) == IF "p" \in DOMAIN e THEN e.p ELSE cfg.precision
+ModeOf(e) == IF "m" \in DOMAIN e THEN e.m ELSE cfg.mode
+
+\* division spellings whose left operand is a primitive (the harness marks them "lhsprim") equal to one
+IsOneOverX(e) == /\ "lhsprim" \in DOMAIN e /\ "l" \in DOMAIN e.a
+                 /\ e.a.l = <<1>> /\ e.a.s = 1 /\ e.a.e = 0
 
 Verdict(e) ==
   LET op == e.op IN
@@ -77,12 +85,28 @@ Verdict(e) ==
                                IF "radix" \in DOMAIN e THEN e.radix ELSE 10,
                                IF "utf8" \in DOMAIN e THEN e.utf8 ELSE TRUE, e.r)
     [] op = "fmt" -> FormatEventOK(e, IF "N" \in DOMAIN e THEN Arg(e.a) ELSE DZero, WArg(e.a), cfg)
+    [] op = "sqrt" -> SqrtOK(IF e.form \in {"default", "ctx", "dref_ctx"} THEN "some" ELSE IF e.form = "dref_abs" THEN "abs" ELSE "copysign",
+                             Arg(e.a), PrecOf(e), ModeOf(e), e.r)
+    [] op = "cbrt" -> CbrtOK(Arg(e.a), PrecOf(e), ModeOf(e), e.r)
+    [] op = "inverse" -> LET v == InverseOK(Arg(e.a), PrecOf(e), ModeOf(e), e.r)
+                         IN IF v = OK THEN InvAgreeOK(hist.inv, Arg(e.a), PrecOf(e), ModeOf(e), e.r) ELSE v
     [] op = "div" /\ "bits" \in DOMAIN e.a ->          \* float numerator: only the zero-divisor rule is specified here
          IF Arg(e.b).d = <<>> THEN Chk(IsPanic(e.r), "zero-divisor-must-panic") ELSE OK
+    [] op = "div" /\ IsOneOverX(e) ->                  \* `1 / x` with a primitive one is the reciprocal (C12)
+         IF Arg(e.b).d = <<>> THEN Chk(IsPanic(e.r), "zero-divisor-must-panic")
+         ELSE InverseOK(Arg(e.b), cfg.precision, cfg.mode, e.r)
     [] op = "div" -> LET v == DivOK(Arg(e.a), Arg(e.b), cfg.precision, e.r)
                      IN IF v = OK THEN DivAgreeOK(hist.div, Arg(e.a), Arg(e.b), e.r) ELSE v
     [] op = "rem" -> RemOK(Arg(e.a), Arg(e.b), e.r)
     [] OTHER -> Bad("unknown-op")
+
+\* an unexplained event may be a known finding: label it with the deviation that explains it
+Explained(e, v) ==
+  IF e.op = "inverse" /\ KF_C12_SmallPrecision("inverse", Arg(e.a), PrecOf(e), e.r, v[2])
+    THEN <<"dev", "KF-C12-small-precision">>
+  ELSE IF e.op = "div" /\ IsOneOverX(e) /\ Arg(e.b).d # <<>> /\ KF_C12_SmallPrecision("div", Arg(e.b), cfg.precision, e.r, v[2])
+    THEN <<"dev", "KF-C12-small-precision">>
+  ELSE v
 
 Step ==
   /\ l <= NRec
@@ -98,9 +122,12 @@ Step ==
      THEN hist' = EmptyHist /\ UNCHANGED <<cfg, regs, bad>>
      ELSE IF e.op = "note"
      THEN UNCHANGED <<cfg, regs, hist, bad>>
-     ELSE LET v == Verdict(e) IN
+     ELSE LET v0 == Verdict(e)
+              v == IF v0 = OK THEN OK ELSE Explained(e, v0)
+          IN
           /\ bad' = IF v = OK THEN bad ELSE Append(bad, <<l, v>>)
           /\ hist' = IF e.op = "hash" THEN [hist EXCEPT !.hash = HashRemember(hist.hash, WArg(e.a), e.r)]
+                      ELSE IF e.op = "inverse" THEN [hist EXCEPT !.inv = InvRemember(hist.inv, Arg(e.a), PrecOf(e), ModeOf(e), e.r)]
                       ELSE IF e.op = "div" /\ "bits" \notin DOMAIN e.a THEN [hist EXCEPT !.div = DivRemember(hist.div, Arg(e.a), Arg(e.b), e.r)]
                       ELSE hist
           /\ UNCHANGED <<cfg, regs>>
